@@ -28,7 +28,7 @@ for p in props:
             "level_claimed": {
                 "category": "model_checking",
                 "text": mf.get("text", "bounded symbolic execution of the real code; every assertion discharged by SMT as path-condition AND NOT(property) = unsat"),
-                "design_ref": "DESIGN.md section 5, " + pid,
+                "design_ref": "DESIGN.md section 10.3 (as built: entries, bounds, assumptions) and section 5, " + pid + " (plan)",
             },
             "level_note": mf.get("note", "") + " Harness entries: " + fn + ". Assumptions: " + "; ".join(spec.get("assumptions", [])) + ". Outside the claim: " + "; ".join(spec.get("outside", [])) + ".",
             "technique": mf.get("technique", "symbolic execution of go/ssa of /repo + SMT (z3/cvc5), bounded; counterexamples replayed natively"),
